@@ -2,6 +2,7 @@ package main
 
 import (
 	"fmt"
+	"go/constant"
 	"go/token"
 	"go/types"
 	"sort"
@@ -234,18 +235,22 @@ func fieldOfAddr(v ssa.Value) *types.Var {
 type funcSummary map[lockKey]int // consistent net effect on the caller's state
 
 type lockFacts struct {
-	fn      *ssa.Function
-	before  map[ssa.Instruction]lockState
-	returns []*ssa.Return
-	summary funcSummary
+	fn          *ssa.Function
+	before      map[ssa.Instruction]lockState
+	returns     []*ssa.Return
+	summary     funcSummary
+	condSummary funcSummary
 }
 
 type lockAnalysis struct {
 	p         *Program
 	facts     map[*ssa.Function]*lockFacts
 	summaries map[*ssa.Function]funcSummary
-	nLockOps  int
-	unclass   []string
+	// conditional acquire wrappers: unexported func(...) bool that returns true with the
+	// lock held (net d) and false with it released (net 0)
+	condSummaries map[*ssa.Function]funcSummary
+	nLockOps      int
+	unclass       []string
 }
 
 func sameSummary(a, b funcSummary) bool {
@@ -266,7 +271,7 @@ func getLockAnalysis(p *Program) *lockAnalysis {
 	if la, ok := lockAnalysisCache[p]; ok {
 		return la
 	}
-	la := &lockAnalysis{p: p, facts: map[*ssa.Function]*lockFacts{}, summaries: map[*ssa.Function]funcSummary{}}
+	la := &lockAnalysis{p: p, facts: map[*ssa.Function]*lockFacts{}, summaries: map[*ssa.Function]funcSummary{}, condSummaries: map[*ssa.Function]funcSummary{}}
 	for iter := 0; iter < 6; iter++ {
 		changed := false
 		la.nLockOps = 0
@@ -276,6 +281,10 @@ func getLockAnalysis(p *Program) *lockAnalysis {
 			la.facts[fn] = f
 			if !sameSummary(la.summaries[fn], f.summary) {
 				la.summaries[fn] = f.summary
+				changed = true
+			}
+			if !sameSummary(la.condSummaries[fn], f.condSummary) {
+				la.condSummaries[fn] = f.condSummary
 				changed = true
 			}
 		}
@@ -359,8 +368,15 @@ func (la *lockAnalysis) analyse(fn *ssa.Function) *lockFacts {
 		for _, ins := range b.Instrs {
 			la.transfer(s, ins)
 		}
-		for _, succ := range b.Succs {
-			if joinInto(&in[succ.Index], s) {
+		for si, succ := range b.Succs {
+			st := s
+			if adj := la.edgeAdjust(b, si); adj != nil {
+				st = cloneState(s)
+				for k, d := range adj {
+					st.apply(k, int8(d), 0)
+				}
+			}
+			if joinInto(&in[succ.Index], st) {
 				if !inWork[succ.Index] {
 					inWork[succ.Index] = true
 					work = append(work, succ)
@@ -419,7 +435,70 @@ func (la *lockAnalysis) analyse(fn *ssa.Function) *lockFacts {
 		}
 	}
 	f.summary = sum
+	// conditional acquire wrapper: func(...) bool, every `return true` leaves the same
+	// non-zero net, every `return false` leaves net 0
+	f.condSummary = funcSummary{}
+	res := fn.Signature.Results()
+	if !isExportedEntry(fn) && fn.Parent() == nil && res.Len() == 1 && len(f.returns) > 1 {
+		if bt, ok := res.At(0).Type().Underlying().(*types.Basic); ok && bt.Kind() == types.Bool {
+			for k := range keys {
+				if _, plain := sum[k]; plain {
+					continue
+				}
+				okAll, val, sawTrue := true, 0, false
+				for _, r := range f.returns {
+					if isRecoverBlock(r.Block()) {
+						continue
+					}
+					c, isC := retValue(r, 0).(*ssa.Const)
+					ns := f.before[r].nets(k)
+					if !isC || c.Value == nil || c.Value.Kind() != constant.Bool || len(ns) != 1 {
+						okAll = false
+						break
+					}
+					if constant.BoolVal(c.Value) {
+						if sawTrue && ns[0] != val {
+							okAll = false
+							break
+						}
+						val, sawTrue = ns[0], true
+					} else if ns[0] != 0 {
+						okAll = false
+						break
+					}
+				}
+				if okAll && sawTrue && val != 0 {
+					f.condSummary[k] = val
+				}
+			}
+		}
+	}
 	return f
+}
+
+// edgeAdjust: block b ends in a branch on the result of a conditional acquire wrapper;
+// on the edge where the wrapper returned true the lock effect of the wrapper applies.
+func (la *lockAnalysis) edgeAdjust(b *ssa.BasicBlock, succIdx int) funcSummary {
+	if len(b.Instrs) == 0 || len(b.Succs) != 2 {
+		return nil
+	}
+	iff, ok := b.Instrs[len(b.Instrs)-1].(*ssa.If)
+	if !ok {
+		return nil
+	}
+	c, truth := normFact(edgeFact{iff.Cond, succIdx == 0, b})
+	call, ok := c.(*ssa.Call)
+	if !ok || !truth {
+		return nil
+	}
+	sc := call.Call.StaticCallee()
+	if sc == nil {
+		return nil
+	}
+	if cs := la.condSummaries[sc]; len(cs) > 0 {
+		return cs
+	}
+	return nil
 }
 
 func pkgOf(fn *ssa.Function) string {
@@ -463,6 +542,13 @@ func ruleL1(pkgs ...string) func(p *Program, r *Reporter) {
 			}
 			sort.Slice(ks, func(i, j int) bool { return ks[i].String() < ks[j].String() })
 			for _, k := range ks {
+				if w, isCond := f.condSummary[k]; isCond {
+					for _, ret := range f.returns {
+						r.Ob(id, funcName(fn), k.String()+" conditional wrapper", ret.Pos(), true, true,
+							fmt.Sprintf("conditional wrapper: returns true with net %+d and false with net 0; callers account for it on the true edge", w))
+					}
+					continue
+				}
 				if w, isWrapper := f.summary[k]; isWrapper {
 					// acquire/release wrapper: consistent non-zero net at every return;
 					// the obligation is on each call site (applied through the summary)
